@@ -684,6 +684,11 @@ def circuits(n):
         out["chain"] = ry + [("CNOT", (0, 1)), ("CNOT", (1, 2)), ("RZ(v)", (0,)), ("RX(u)", (2,))]
     if n == 4:
         out["entangled"] = ry + [("CNOT", (3, 1)), ("RX(u)", (2,)), ("SWAP", (0, 3))]
+    # multi-qubit gates whose parameter is still symbolic when the state is computed (sympy lifting path)
+    if n == 2:
+        out["sym2q"] = ry + [("RY(v)|c1", (0, 1)), ("XX(u)", (1, 0))]
+    if n == 3:
+        out["sym2q"] = ry + [("RY(v)|c1", (2, 0)), ("RX(u)|c1", (1, 2))]
     # registers declared wider than the gates need: idle qubits after / before / between the used ones
     if n == 2:
         out["idle-tail"] = [("RY(t0)", (0,)), ("RX(u)", (0,))]
